@@ -121,6 +121,12 @@ def summarise(P):
                     and isinstance(s.targets[0], ast.Name):
                 name = s.targets[0].id
                 v = s.value
+                if isinstance(v, ast.Constant) and name not in S.sets \
+                        and name not in S.roles.values():
+                    # a constant bound to a name the summary does not track: if it
+                    # were used in a set expression later, that expression would
+                    # not be recognised and the analysis would stop there
+                    continue
                 # is_non_assignment = not isinstance(stmt, (A, B, C))
                 if isinstance(v, ast.UnaryOp) and isinstance(v.op, ast.Not) \
                         and isinstance(v.operand, ast.Call) \
@@ -256,6 +262,10 @@ def _loop(lp, S, P, f):
                 info["rm_update"] = "accumulate" if keeps else "overwrite"
                 info["rm_node"] = s
                 continue
+        if isinstance(s, ast.Assign) and isinstance(s.value, ast.Constant) \
+                and all(isinstance(t_, ast.Name) and t_.id not in lookups
+                        and t_.id not in S.sets and t_.id != v for t_ in s.targets):
+            continue
         raise AnalysisError(
             f"_add_statement: loop body statement not understood "
             f"(line {s.lineno}): {norm(s, 100)}")
@@ -440,20 +450,25 @@ def _condition(run, P, f):
     if cond is None:
         raise AnalysisError("_add_statement: guard construction not found")
     t0 = ast.unparse(cond.test)
-    ok = t0 == f"not {stack}" and len(cond.body) == 1 \
-        and ast.unparse(cond.body[0]) == f"{cv} = True"
+    from .util import core
+    sets_cv = lambda s_: isinstance(s_, ast.Assign) and any(dotted(t_) == cv for t_ in s_.targets)
+    cb = core(cond.body, sets_cv)
+    ok = t0 == f"not {stack}" and len(cb) == 1 \
+        and ast.unparse(cb[0]) == f"{cv} = True"
     run.ob("C02.cond", f, cond, ok, construct="empty stack -> condition = True",
            why="unguarded statements must run unconditionally")
-    e1 = cond.orelse[0] if cond.orelse and isinstance(cond.orelse[0], ast.If) else None
+    eo = core(cond.orelse, lambda s_: isinstance(s_, ast.If))
+    e1 = eo[0] if len(eo) == 1 and isinstance(eo[0], ast.If) else None
     ok = e1 is not None and ast.unparse(e1.test) == f"len({stack}) == 1" \
-        and ast.unparse(e1.body[0]) == f"{cv} = {stack}[0]"
+        and [ast.unparse(s_) for s_ in core(e1.body, sets_cv)] == [f"{cv} = {stack}[0]"]
     run.ob("C02.cond", f, e1 if e1 is not None else cond, ok,
            construct="one entry -> condition = stack[0]",
            why="single guard")
     ok = False
     if e1 is not None and e1.orelse:
-        src = " ".join(ast.unparse(s_) for s_ in e1.orelse)
-        ok = f"{cv} = LogicalAnd(tuple({stack}))" in src
+        ok = [ast.unparse(s_) for s_ in core(e1.orelse, sets_cv)
+              if not isinstance(s_, (ast.Import, ast.ImportFrom))] == \
+            [f"{cv} = LogicalAnd(tuple({stack}))"]
     run.ob("C02.cond", f, e1.orelse[-1] if e1 is not None and e1.orelse else cond, ok,
            construct="several entries -> LogicalAnd(tuple(stack))",
            why="a nested block must be guarded by all enclosing guards, not only the innermost")
